@@ -170,7 +170,11 @@ def judge(ctx, w, store, append_order, blocked_while_storage, close_returned_wit
     if len(applied) != len(req):
         ctx.violation('wrapped storage saw %d applications for %d requests' % (len(applied), len(req)), witness)
     # order = append order (hence program order per producer)
-    if append_order is not None and applied != append_order:
+    if append_order is not None and len(append_order) != len(req):
+        # the appends were not all observed under the buffer lock (another locking protocol): the global order is unobservable
+        # for this monitor; exactly-once, per-producer order and the final state below still decide
+        ctx.count('executions_with_unobserved_append_order')
+    elif append_order is not None and applied != append_order:
         ctx.violation('operations applied in another order than they were appended', dict(witness, applied=applied, appended=append_order))
     for p in range(w['producers']):
         mine = [a for a in applied if a[1].startswith('C%d_' % p)]
@@ -365,6 +369,26 @@ def run(ctx):
         c = explore(ctx, w, fail_at, K, F, nr, max_dfs=(maxdfs // ctx.nshards + 1) if shard else maxdfs, shard=shard, close_timeout=close_timeout)
         all_complete = all_complete and c
         ctx.sample({'workload': w, 'fail_at': fail_at, 'K': K, 'F': F, 'timeout_on_close': close_timeout, 'dfs_complete': c})
+    # bytecode granularity (random + PCT): interpreters older than 3.10 may switch threads between any two bytecodes, e.g. between
+    # loading the buffer attribute and calling append on it
+    for w in ({'producers': 1, 'recordings': 1, 'writes': 2}, {'producers': 2, 'recordings': 1, 'writes': 2}):
+        holder = {}
+        make = make_execution(w, None, holder)
+        ninst = ctx.budget(400, 40000)
+
+        def on_run_i(rec, desc, w=w, holder=holder):
+            ctx.case(rec.trace, nontrivial=len(rec.points) > 0)
+            ctx.count('executions')
+            ctx.count('instruction_level_executions')
+            witness = {'workload': w, 'fail_at': None, 'schedule': desc, 'granularity': 'instruction'}
+            if rec.aborted or rec.error is not None:
+                if rec.aborted and 'deadlock' in rec.aborted:
+                    ctx.violation('execution deadlocked: %s' % rec.aborted, witness)
+                elif rec.error is not None:
+                    ctx.violation('close()/producer raised %s' % type(rec.error).__name__, witness)
+                return
+            judge(ctx, w, holder['store'], holder['append_order'], holder['blocked'], holder['close_with'][0], witness, None)
+        S.explore_random(make, targets(narrow=True), ninst, ctx.rng, on_run_i, granularity='instruction', step_budget=300000)
     ctx.note('bounded_dfs_complete_for_all_workloads', all_complete)
     if ctx.shard == 0:
         stress(ctx, 100 if ctx.quick else 2000)
@@ -381,5 +405,6 @@ def replay(ctx, wit):
     make = make_execution(w, fail_at, holder, close_timeout=wit.get('close_timeout'))
     sch = wit['schedule']
     strat = S.strategy_from(sch)
-    rec = S.run_once(make, strat, targets(), max_fires=wit.get('max_fires', 2))
+    rec = S.run_once(make, strat, targets(narrow=wit.get('granularity') == 'instruction'), max_fires=wit.get('max_fires', 2),
+                     granularity=wit.get('granularity', 'line'), step_budget=300000)
     judge(ctx, w, holder['store'], holder['append_order'], holder['blocked'], holder['close_with'][0] if wit.get('close_timeout') is None else None, wit, fail_at)
